@@ -8,15 +8,20 @@ func (cw *CodeWriter) flushPending() {
 	for _, ch := range cw.pendings {
 		if ch == '\t' {
 			cw.writeIndent()
+		} else if ch == '\n' {
+			cw.writeNewline()
 		} else {
-			cw.Builder.WriteRune(ch)
+			cw.raw(string(ch))
 		}
 	}
 	cw.clearPending()
 }
 
 func (cw *CodeWriter) writeNewline() {
-	cw.Builder.WriteRune('\n')
+	if cw.Builder.Len() == 0 {
+		return // no blank lines before the first token (they would be trimmed and shift the source map)
+	}
+	cw.raw("\n")
 }
 
 func (cw *CodeWriter) writeIndent() {
@@ -25,7 +30,7 @@ func (cw *CodeWriter) writeIndent() {
 		indent = "  " // default: 2 spaces
 	}
 	for i := 0; i < cw.IndentLevel; i++ {
-		cw.Builder.WriteString(indent)
+		cw.raw(indent)
 	}
 }
 
